@@ -54,6 +54,11 @@ Definition rd32 (buf : bytes) (o : N) : N :=
   | _ => 0
   end.
 
+(* Repair flag of the per-message check() functions, pinned by the correspondence: a length prefix that
+   cannot belong to the message is an error (pinned code: reported as Incomplete, i.e. wait forever). *)
+Definition Wire_wrong_length_is_error : bool := true.
+Definition wrong_len : presult := if Wire_wrong_length_is_error then PError else PIncomplete.
+
 (* the per-message part of Frame::parse: check() then from() *)
 Definition dispatch (msg_id protocol_id_length length avail : N) (buf : bytes) : presult :=
     if msg_id =? Handshake_ID_FROM_PROTOCOL then
@@ -68,17 +73,17 @@ Definition dispatch (msg_id protocol_id_length length avail : N) (buf : bytes) :
         else PError
       else PError
     else if msg_id =? Choke_ID then
-      if length =? Choke_LEN then PFrame Choke Choke_FULL_SIZE else PIncomplete
+      if length =? Choke_LEN then PFrame Choke Choke_FULL_SIZE else wrong_len
     else if msg_id =? Unchoke_ID then
-      if length =? Unchoke_LEN then PFrame Unchoke Unchoke_FULL_SIZE else PIncomplete
+      if length =? Unchoke_LEN then PFrame Unchoke Unchoke_FULL_SIZE else wrong_len
     else if msg_id =? Interested_ID then
-      if length =? Interested_LEN then PFrame Interested Interested_FULL_SIZE else PIncomplete
+      if length =? Interested_LEN then PFrame Interested Interested_FULL_SIZE else wrong_len
     else if msg_id =? NotInterested_ID then
-      if length =? NotInterested_LEN then PFrame NotInterested NotInterested_FULL_SIZE else PIncomplete
+      if length =? NotInterested_LEN then PFrame NotInterested NotInterested_FULL_SIZE else wrong_len
     else if msg_id =? Have_ID then
       if (length =? Have_LEN) && (Have_LEN_SIZE + length <=? avail)
       then PFrame (Have (rd32 buf (Have_LEN_SIZE + Have_ID_SIZE))) Have_FULL_SIZE
-      else PIncomplete
+      else if length =? Have_LEN then PIncomplete else wrong_len
     else if msg_id =? Bitfield_ID then
       if Bitfield_LEN_SIZE + length <=? avail
       then PFrame (Bitfield (slice buf (Bitfield_LEN_SIZE + Bitfield_ID_SIZE)
@@ -91,7 +96,7 @@ Definition dispatch (msg_id protocol_id_length length avail : N) (buf : bytes) :
            PFrame (Request (rd32 buf s) (rd32 buf (s + Request_INDEX_SIZE))
                            (rd32 buf (s + Request_INDEX_SIZE + Request_BEGIN_SIZE)))
                   Request_FULL_SIZE
-      else PIncomplete
+      else if length =? Request_LEN then PIncomplete else wrong_len
     else if msg_id =? Piece_ID then
       if (Piece_MIN_LEN <=? length) && (Piece_LEN_SIZE + length <=? avail)
       then let s := Piece_LEN_SIZE + Piece_ID_SIZE in
@@ -101,14 +106,14 @@ Definition dispatch (msg_id protocol_id_length length avail : N) (buf : bytes) :
            PFrame (Piece (rd32 buf s) (rd32 buf (s + Piece_INDEX_SIZE))
                          (slice buf s2 (Piece_LEN_SIZE + length - s2)))
                   (Piece_LEN_SIZE + length)
-      else PIncomplete
+      else if Piece_MIN_LEN <=? length then PIncomplete else wrong_len
     else if msg_id =? Cancel_ID then
       if (length =? Cancel_LEN) && (Cancel_LEN_SIZE + length <=? avail)
       then let s := Cancel_LEN_SIZE + Cancel_ID_SIZE in
            PFrame (Cancel (rd32 buf s) (rd32 buf (s + Cancel_INDEX_SIZE))
                           (rd32 buf (s + Cancel_INDEX_SIZE + Cancel_BEGIN_SIZE)))
                   Cancel_FULL_SIZE
-      else PIncomplete
+      else if length =? Cancel_LEN then PIncomplete else wrong_len
     else PUnknown msg_id (MSG_LEN_SIZE + length).
 
 Definition parse_frame (buf : bytes) : presult :=
